@@ -165,3 +165,73 @@ func TestVerifBounded_C16_Generators(t *testing.T) {
 		t.Fatalf("%d mismatches", fails)
 	}
 }
+
+// Large zones: beyond ~1100 instances per zone the generator starts to skip instances whose widest token cannot be
+// split (the "ignored instances" path). One generator run for id 1300 per zone; spread checked at selected prefixes.
+func TestVerifBounded_C16_LargeZone(t *testing.T) {
+	zones := []int{0}
+	if os.Getenv("VERIF_TIER") == "thorough" {
+		zones = []int{0, 3, 7}
+	}
+	const maxInst = 1300
+	prefixes := []int{600, 900, 1100, 1113, 1125, 1150, 1200, 1250, 1301}
+	cases, fails := 0, 0
+	report := func(id, msg string) {
+		fails++
+		if fails <= 5 {
+			fmt.Printf("BOUNDED-VIOLATION case=%s %s\n", id, msg)
+		}
+	}
+	for _, zone := range zones {
+		byID, err := NewSpreadMinimizingTokenGeneratorForInstanceAndZoneID("i-", maxInst, zone, false).generateTokensByInstanceID()
+		if err != nil {
+			report(fmt.Sprintf("c16-large-gen:zone=%d", zone), err.Error())
+			continue
+		}
+		owner := make(map[uint32]int, (maxInst+1)*optimalTokensPerInstance)
+		for id := 0; id <= maxInst; id++ {
+			cases++
+			if len(byID[id]) != optimalTokensPerInstance {
+				report(fmt.Sprintf("c16-large-count:zone=%d:id=%d", zone, id), fmt.Sprintf("%d tokens", len(byID[id])))
+			}
+			for _, tk := range byID[id] {
+				if int(tk%maxZonesCount) != zone {
+					report(fmt.Sprintf("c16-large-congruent:zone=%d:id=%d", zone, id), fmt.Sprintf("token %d", tk))
+				}
+				if prev, dup := owner[tk]; dup {
+					report(fmt.Sprintf("c16-large-distinct:zone=%d:id=%d", zone, id), fmt.Sprintf("token %d also generated for id %d", tk, prev))
+				}
+				owner[tk] = id
+			}
+		}
+		for _, n := range prefixes {
+			cases++
+			var sorted []uint32
+			for id := 0; id < n; id++ {
+				sorted = append(sorted, byID[id]...)
+			}
+			sort.Slice(sorted, func(a, b int) bool { return sorted[a] < sorted[b] })
+			own := make([]float64, n)
+			for i, tk := range sorted {
+				prev := sorted[(i+len(sorted)-1)%len(sorted)]
+				own[owner[tk]] += float64(tokenDistance(prev, tk))
+			}
+			mn, mx := own[0], own[0]
+			for _, o := range own {
+				if o < mn {
+					mn = o
+				}
+				if o > mx {
+					mx = o
+				}
+			}
+			if (mx-mn)/mx > 0.01 {
+				report(fmt.Sprintf("c16-large-spread:zone=%d:n=%d", zone, n), fmt.Sprintf("spread %.4f", (mx-mn)/mx))
+			}
+		}
+	}
+	fmt.Printf("BOUNDED-CASES name=C16_LargeZone n=%d distinct=%d bound=zones %v, one generator run for instance id %d: 512 tokens each, congruent, pairwise distinct within the zone; ownership spread <= 1%% at prefixes %v (covers the ignored-instances path, first taken at about 1112 instances)\n", cases, cases, zones, maxInst, prefixes)
+	if fails > 0 {
+		t.Fatalf("%d mismatches", fails)
+	}
+}
